@@ -113,3 +113,96 @@ def random_free_history(rng, n):
         hist.append(("q", mu2, rng.choice([3, 4, 5])))
         nq += 1
     return hist
+
+
+# ------------------------------------------------------------------------------------------
+# decoupling steps of a single query from an arbitrary reference point (C16)
+# ------------------------------------------------------------------------------------------
+
+class _RecList(list):
+    def __init__(self, it, log):
+        super().__init__(it)
+        self._log = log
+
+    def __getitem__(self, k):
+        self._log.append(("ratio", int(k) % 3 if isinstance(k, int) and k < 0 else int(k), int(k)))
+        return super().__getitem__(k)
+
+
+def steps_instance(seed):
+    """Random walls / reference (any patch, any nf) / target; record what Couplings.a does."""
+    import eko.couplings as ec
+    from eko.couplings import Couplings
+    from eko.quantities.couplings import CouplingEvolutionMethod, CouplingsInfo
+    from eko.quantities.heavy_quarks import QuarkMassScheme
+
+    rng = random.Random(seed)
+    vals = sorted(rng.uniform(1.5, 400.0) for _ in range(6))
+    for j in range(1, 6):
+        if vals[j] < vals[j - 1] * 1.2:
+            vals[j] = vals[j - 1] * 1.2
+    tab = {k + 1: v for k, v in enumerate(vals)}       # token -> mu^2
+    ms = sorted(rng.sample(range(1, 7), 3))
+    ref = [rng.choice(range(1, 7)), rng.choice([3, 4, 5, 6])]
+    if rng.random() < 0.3:
+        ref[0] = rng.choice(ms)                          # reference exactly on a matching scale
+    target = [rng.choice(range(1, 7)), rng.choice([3, 4, 5, 6])]
+    ratios = [rng.uniform(0.6, 0.9), rng.uniform(1.1, 1.4), rng.uniform(1.5, 1.9)]
+    masses = [tab[m] / r for m, r in zip(ms, ratios)]
+    order = (rng.choice([1, 2, 3, 4]), 0)
+    scheme = rng.choice([QuarkMassScheme.POLE, QuarkMassScheme.MSBAR])
+    rec = {"ms": ms, "ref": ref, "target": target, "exc": "", "dec": [], "runs": [], "order": order[0], "scheme": scheme.name}
+    info = CouplingsInfo(alphas=0.118 if tab[ref[0]] > 50 else 0.25, alphaem=0.00781, ref=(tab[ref[0]] ** 0.5, ref[1]))
+    obj = Couplings(info, order=order, method=CouplingEvolutionMethod.EXPANDED, masses=masses, hqm_scheme=scheme, thresholds_ratios=ratios)
+    # the atlas squares the reference scale again: recover the token table from the object itself
+    f2t = {}
+    for k, v in tab.items():
+        f2t[float(v)] = k
+    f2t[float(obj.atlas.origin[0])] = ref[0]
+    for m, w in zip(ms, obj.atlas.walls[1:-1]):
+        f2t[float(w)] = m
+    log = []
+    obj.thresholds_ratios = _RecList(obj.thresholds_ratios, log)
+    saved = (ec.compute_matching_coeffs_up, ec.compute_matching_coeffs_down, Couplings.compute)
+
+    inside = {"down": False}
+
+    def up(scheme_, nf):
+        if not inside["down"]:     # the downward table is built from the upward one internally
+            log.append(("up", int(nf)))
+        return saved[0](scheme_, nf)
+
+    def down(scheme_, nf):
+        log.append(("down", int(nf)))
+        inside["down"] = True
+        try:
+            return saved[1](scheme_, nf)
+        finally:
+            inside["down"] = False
+
+    def compute(self, a_ref, nf, nl, scale_from, scale_to):
+        if self is obj:
+            log.append(("run", int(nf), f2t.get(float(scale_from), -1), f2t.get(float(scale_to), -1)))
+        return saved[2](self, a_ref, nf, nl, scale_from, scale_to)
+
+    ec.compute_matching_coeffs_up, ec.compute_matching_coeffs_down, Couplings.compute = up, down, compute
+    try:
+        val = obj.a(tab[target[0]], target[1])
+        if not np.all(np.isfinite(val)):
+            rec["exc"] = "non-finite"
+    except Exception as ex:  # noqa: BLE001
+        rec["exc"] = type(ex).__name__
+    finally:
+        ec.compute_matching_coeffs_up, ec.compute_matching_coeffs_down, Couplings.compute = saved
+    cur = {}
+    for ev in log:
+        if ev[0] == "ratio":
+            cur = {"quark": ev[2] if ev[2] >= 0 else ev[2] + 100}
+        elif ev[0] in ("up", "down"):
+            cur.update(dir=ev[0], arg=ev[1])
+            cur.setdefault("quark", -1)
+            rec["dec"].append(cur)
+            cur = {}
+        else:
+            rec["runs"].append({"nf": ev[1], "from": ev[2], "to": ev[3]})
+    return rec
